@@ -24,6 +24,7 @@ CONSTANTS
   Writers,       \* nodes whose owner API is exercised
   Key, Val,
   Cluster,       \* [Node -> cluster id]
+  Addr,          \* [Node -> network address]: a restarted node keeps its address under a new identity
   Grace,         \* marked_for_deletion_grace_period (ticks)
   Advances,      \* clock steps
   Budget,        \* delta budget in entry units (an entry with a non-empty value costs 1); >= 99 = unbounded
@@ -276,7 +277,8 @@ ProcessMsg(n, m, keep) == ProcessMsgRec(n, m, keep, "Process", m)
 \* a crafted datagram (wire form `wire`, decoded form m); the reply stays in flight
 ProcessMsgAs(n, m, wire) == ProcessMsgRec(n, m, TRUE, "Inject", wire)
 
-Process(n, m, keep) == m \in net /\ m.dst = n /\ ProcessMsg(n, m, keep)
+\* datagrams are delivered by ADDRESS: what was sent to a node reaches whichever incarnation listens there
+Process(n, m, keep) == m \in net /\ m.dst \in Node /\ Addr[m.dst] = Addr[n] /\ ProcessMsg(n, m, keep)
 
 Lose(m) ==
   /\ m \in net
@@ -464,11 +466,19 @@ C04_Monotonic ==
         /\ \A k \in (DOMAIN c1.kv) \cap (DOMAIN c2.kv) :
              c2.kv[k].ver >= c1.kv[k].ver \/ c2.gc > c1.gc ]_<<vars, hist>>
 LastAct == IF hist' # hist /\ Len(hist') > 0 THEN hist'[Len(hist')] ELSE [a |-> "none", n |-> "", k |-> ""]
+\* effective = what the reference versioned map says: set over an equal plain value, set-with-TTL over
+\* an equal TTL value and deletes of absent keys change nothing; everything else is a write
+Effective(c, op, k, v) ==
+  CASE op = "Set"       -> ~(Has(c.kv, k) /\ c.kv[k].val = v /\ c.kv[k].st = "Set")
+    [] op = "SetTtl"    -> ~(Has(c.kv, k) /\ c.kv[k].val = v /\ c.kv[k].st = "Ttl")
+    [] op = "Delete"    -> Has(c.kv, k)
+    [] op = "DeleteTtl" -> Has(c.kv, k)
 C04_FreshVersion ==
   [][ Resetting \/ (LastAct.a \in {"Set", "SetTtl", "Delete", "DeleteTtl"} =>
         LET n == LastAct.n  c1 == st[n].ns[n]  c2 == st'[n].ns[n] IN
-        \/ c2 = c1
-        \/ (c2.max = c1.max + 1 /\ c2.kv[LastAct.k].ver = c2.max /\ c2.gc = c1.gc)) ]_<<vars, hist>>
+        IF Effective(c1, LastAct.a, LastAct.k, LastAct.v)
+        THEN c2.max = c1.max + 1 /\ LastAct.k \in DOMAIN c2.kv /\ c2.kv[LastAct.k].ver = c2.max /\ c2.gc = c1.gc
+        ELSE c2 = c1) ]_<<vars, hist>>
 C04_NoPanic == ~panic
 
 \* C05 -- single writer
